@@ -623,6 +623,91 @@ class TryCatch(Rule):
         return text
 
 
+def _stmt_past(text, i):
+    """index just past the statement that starts at (or after white space from) i: a block, an if/else chain, a loop, or a
+    simple statement ending in ';' (top level)"""
+    n = len(text)
+    while i < n and text[i].isspace():
+        i += 1
+    if text[i] == "{":
+        return match_close(text, i, "{", "}") + 1
+    m = re.match(r"(if|while|for|switch)\b\s*\(", text[i:])
+    if m:
+        cl = match_close(text, i + m.end() - 1)
+        e = _stmt_past(text, cl + 1)
+        if m.group(1) == "if":
+            me = re.match(r"\s*else\b", text[e:])
+            if me:
+                return _stmt_past(text, e + me.end())
+        return e
+    m = re.match(r"do\b", text[i:])
+    if m:
+        e = _stmt_past(text, i + m.end())
+        me = re.match(r"\s*while\s*\(", text[e:])
+        cl = match_close(text, e + me.end() - 1)
+        return text.index(";", cl) + 1
+    depth = 0
+    while i < n:
+        c = text[i]
+        if c == '"' or (c == "'" and not (i > 0 and text[i - 1].isalnum())):
+            i = _skip_literal(text, i)
+            continue
+        if c in "([{":
+            depth += 1
+        elif c in ")]}":
+            depth -= 1
+        elif c == ";" and depth == 0:
+            return i + 1
+        i += 1
+    raise LiftError("statement without end")
+
+
+class IfInit(Rule):
+    """C++17 `if (init; cond) S [else S2]`  ->  `{ init; if (cond) S [else S2] }`: the variable declared by the init-statement lives
+    exactly as long as the if statement (RAII guards declared there are released at ITS end, not at the end of the enclosing block)"""
+
+    n = None
+
+    def apply(self, text):
+        scan = 0
+        while True:
+            m = re.compile(r"\bif\s*(?:constexpr\s*)?\(").search(text, scan)
+            if not m:
+                return text
+            scan = m.end()
+            if _in_literal(text, m.start()):
+                continue
+            op = m.end() - 1
+            try:
+                cl = match_close(text, op)
+            except LiftError:
+                continue          # a fragment that ends inside this condition: nothing to lower
+            parts, depth, last = [], 0, op + 1
+            j = op + 1
+            while j < cl:
+                c = text[j]
+                if c == '"' or (c == "'" and not text[j - 1].isalnum()):
+                    j = _skip_literal(text, j)
+                    continue
+                if c in "([{":
+                    depth += 1
+                elif c in ")]}":
+                    depth -= 1
+                elif c == ";" and depth == 0:
+                    parts.append(text[last:j]); last = j + 1
+                j += 1
+            parts.append(text[last:cl])
+            if len(parts) != 2:
+                continue
+            try:
+                end = _stmt_past(text, m.start())
+            except (LiftError, ValueError, IndexError, AttributeError):
+                raise LiftError("if-with-initialiser whose statement cannot be delimited")
+            rep = "{ %s; if (%s)%s }" % (parts[0].strip(), parts[1].strip(), text[cl + 1:end])
+            text = text[:m.start()] + rep + text[end:]
+            scan = m.start() + 2
+
+
 # applied first (before the unit rules): `for (;;)` and `while (true)` are the same loop as `while (1)` (CBMC's contract
 # instrumentation names the latter's obligations; unit rules that key on `while (` see one spelling)
 PRE_RULES = [
@@ -630,6 +715,7 @@ PRE_RULES = [
     Sub(r"\bwhile\s*\(\s*true\s*\)", "while (1)", None),
     # for (init;; step): an empty condition is `true`; CBMC silently drops a loop contract on a for-loop without a condition
     Sub(r"\bfor\s*\(([^;(){}]+);\s*;(?=[^;(){}]*\))", r"for (\1; 1;", None),
+    IfInit(),
 ]
 
 def _static_local(m):
